@@ -471,9 +471,9 @@ LEVEL_TEXT = ('Machine-checked proof (Coq 8.16.1) over a model of Pony\'s entity
               'inheritance with the diamond rule, no discriminator value used twice in a tree), _all_bases_ / _subclasses_ as computed class by class are exactly the transitive closure of '
               'the direct-base relation and its inverse; accepted schemas have pairwise different discriminator values per tree; the discriminator criteria of a query over e select exactly '
               'the rows created as e or a subclass, also with conditions on attributes declared by subclasses; the SQL of isinstance(x, (c1..cn)) equals Python isinstance; _parse_row_, the '
-              'identity-map refinement, lookups by primary key through any class (loaded objects; unloaded seeds on one line of descent, any discriminator value incl. 0 / empty string) and '
-              'Attribute.get (also after attr.load through a placeholder; flag read from the source on every run) give back the creation class. Four deviations (two diamond seed cases, '
-              'many-to-many items, unpickled references) are refuted by witnesses and recorded as findings; two of them have proposed repairs.')
+              'identity-map refinement, lookups by primary key through any class (loaded objects; unloaded seeds typed by any ancestor incl. sibling branches of a diamond since fix 8097451, any discriminator value incl. 0 / empty string) and '
+              'Attribute.get (also after attr.load through a placeholder; flag read from the source on every run) give back the creation class. Items of many-to-many collections come out with their creation class (fix 50e342a). Two deviations (two sibling-typed '
+              'references to one object in a session; unpickled references) are refuted by witnesses and recorded as findings.')
 LEVEL_NOTE = ('Trusted: Coq kernel + vm_compute; the hand-written model (no source translation) and its correspondence harness; SQL meaning of IN lists. Not covered by '
               'theorems: attribute/column sets of subclasses, composite keys, the NotImplementedError branch of class refinement (search only).')
 TECHNIQUE = 'Coq induction over definition order (structural recursion on the newest-first schema); vm_compute correspondence with the real EntityMeta and FuncIsinstanceMonad; end-to-end reload search on SQLite'
